@@ -368,8 +368,22 @@ def r4_order(chk: Check):
     loops = [n for n in g.live if n.kind == "for"]
     ok = len(loops) == 1 and src(loops[0].ast.iter) == "self.requirements"
     chk.require(ok, chk.fkey(f, "iterates as given"), "RequirementUnion.match must try the alternatives in the given order", chk.loc(f.module, f.node))
-    upd = [n for n in g.live if n.kind == "stmt" and isinstance(n.ast, ast.Assign) and src(n.ast.targets[0]) == "argmax" and not (isinstance(n.ast.value, ast.Constant))]
-    ok = len(upd) == 1 and any(src(t.ast) == "max_score < match.score" and pol is True for t, pol in g.guards(upd[0]) if t.kind == "test")
+    # a new incumbent (MatchRequirement(...)) is created only under a *strict* comparison of its score with the incumbent's (or -inf when there is none)
+    from ..dataflow import expansions
+
+    rd4 = ReachingDefs(g)
+    upd = [n for n, c in g.call_nodes(lambda c: dotted(c.func) == "MatchRequirement")]
+    ok = len(upd) == 1
+    for n in upd:
+        strict = False
+        for t, pol in g.guards(n):
+            if t.kind != "test" or not (isinstance(t.ast, ast.Compare) and len(t.ast.ops) == 1 and isinstance(t.ast.ops[0], ast.Lt)) or pol is not True:
+                continue
+            right = rd4.canon(t.ast.comparators[0], t)
+            lefts = expansions(rd4, t.ast.left, t, depth=4)
+            if right.endswith(".score") and lefts and all(x in ("float('-inf')", "-math.inf", "-inf") or x.endswith(".score") for x in lefts):
+                strict = True
+        ok = ok and strict
     chk.require(ok, chk.fkey(f, "strictly greater"), "the incumbent alternative may only be replaced by a strictly better one (ties keep the earlier alternative)", chk.loc(f.module, f.node))
     ru = tree.func("launcherfinder.specs", "RequirementUnion.__init__")
     chk.require("self.requirements = list(requirements)" in src(ru.node), chk.fkey(ru, "keeps order"), "RequirementUnion must keep its alternatives in the given order", chk.loc(ru.module, ru.node))
